@@ -41,6 +41,14 @@ def main(pid):
     del r
     if not lists:
         raise MachineryError("no lists emitted")
+    # deeper lists (>= 3 non-reference and >= 2 reference citations over 7 positions) by random walks
+    # of the same specification: tlc -simulate
+    r = run_tlc("MC_Filter", "MC_Filter_sim.cfg", timeout=1500, simulate="num=%d" % (3000 if thorough else 500), depth=7,
+                extra=["-seed", str(vlib.seed() + 7)], workers=4)
+    deep = {line for line in r.out.splitlines() if line.startswith('<<"L", ')}
+    ev.cov["tlc_runs"].append({"name": "MC_Filter_sim (tlc -simulate)", "deep_lists": len(deep), "constants": "P=6 MaxNon=4 MaxRef=3 depth 7"})
+    del r
+    lists += [json.loads(json.loads(line[7:-2])) for line in sorted(deep)]
     obs = vlib.impl_map("drv_extract", "run_filter_lists", [x["l"] for x in lists])
     traces = [{"kind": "list", "l": x["l"], "once": o["once"], "twice": o["twice"], "raised": o["raised"]}
               for x, o in zip(lists, obs)]
